@@ -27,6 +27,15 @@ impl WriteSource for pr::Expr {
     fn write(&self, mut opt: WriteOpt) -> Option<String> {
         let mut r = String::new();
 
+        if self.alias.is_some() && opt.context_strength > 10 {
+            // an aliased expression as an operand (`a + (x = b)`): the alias needs the parentheses
+            let mut inner = opt.clone();
+            inner.context_strength = 0;
+            inner.unbound_expr = false;
+            inner.consume_width(2)?;
+            return Some(format!("({})", self.write(inner)?));
+        }
+
         if let Some(alias) = &self.alias {
             r += opt.consume(&write_ident_part(alias))?;
             r += opt.consume(" = ")?;
@@ -199,7 +208,10 @@ impl WriteSource for pr::ExprKind {
                 for param in &c.named_params {
                     r += opt.consume(&write_ident_part(&param.name))?;
                     r += opt.consume(":")?;
-                    r += opt.consume(&param.default_value.as_ref().unwrap().write(opt.clone())?)?;
+                    // a default value is a plain expression: calls and lambdas need parentheses
+                    let mut opt_default = opt.clone();
+                    opt_default.context_strength = opt_default.context_strength.max(11);
+                    r += opt.consume(&param.default_value.as_ref().unwrap().write(opt_default)?)?;
                     r += opt.consume(" ")?;
                 }
                 r += opt.consume("-> ")?;
@@ -209,6 +221,9 @@ impl WriteSource for pr::ExprKind {
                     r += opt.consume(&ty)?;
                     r += opt.consume(" ")?;
                 }
+
+                // the body may be a call but not a bare lambda
+                opt.context_strength = opt.context_strength.max(8);
 
                 // try a single line
                 if let Some(body) = c.body.write(opt.clone()) {
@@ -387,7 +402,10 @@ impl WriteSource for pr::Stmt {
 
         for annotation in &self.annotations {
             r += "@";
-            r += &annotation.expr.write(opt.clone())?;
+            // an annotation is a plain expression: calls and lambdas need parentheses
+            let mut opt_annotation = opt.clone();
+            opt_annotation.context_strength = opt_annotation.context_strength.max(11);
+            r += &annotation.expr.write(opt_annotation)?;
             r += "\n";
             r += &opt.write_indent();
             opt.reset_line()?;
@@ -513,8 +531,10 @@ fn display_interpolation(
 }
 
 impl WriteSource for pr::SwitchCase {
-    fn write(&self, opt: WriteOpt) -> Option<String> {
+    fn write(&self, mut opt: WriteOpt) -> Option<String> {
         let mut r = String::new();
+        // condition and value may be calls but not bare lambdas
+        opt.context_strength = opt.context_strength.max(8);
         r += &self.condition.write(opt.clone())?;
         r += " => ";
         r += &self.value.write(opt)?;
